@@ -38,7 +38,8 @@ def Dict(k, v): return ("Dict", k, v)
 def Opt(t): return ("Opt", t)
 VAR, LEXP, CON, WRAP, HNAME, BITS = ("Var",), ("LinExpr",), ("Constr",), ("Wrapper",), ("HelperName",), ("BitCount",)
 def VarDict(fam, key): return ("VarDict", fam, key)
-ERASED = (("Attr",), ("Wrapper",), ("Str",))        # parameters of these types do not appear in the Gallina signature
+BGRAPH, SELFOBJ, NODEDATA, EDGEDATA, SGRAPH = ("BGraph",), ("SelfObject",), ("NodeDataView",), ("EdgeDataView",), ("STGraph",)
+ERASED = (("Attr",), ("Wrapper",), ("Str",), ("SelfObject",))        # parameters of these types do not appear in the Gallina signature
 EDGE = Tuple(NODE, NODE)
 DEDGE = Tuple(NODE, NODE, EDATA)
 NUMERIC = {INT: 0, NUM: 1, EXT: 2}
@@ -72,6 +73,29 @@ TARGETS = {
     "pwc": dict(file="flowpaths/utils/solverwrapper.py", cls="SolverWrapper", func="add_piecewise_constant_constraint",
                 params=[WRAP, VAR, VAR, List(Tuple(NUM, NUM)), List(NUM), HNAME], defaults=[], ret=NONE, emits=True),
 }
+# a method whose `self` is an object with typed attributes: inputs become parameters of the generated function, outputs
+# (attributes the method assigns) and, with graph=True, the nx.DiGraph `self` that the method fills become part of the result
+TARGETS["augment"] = dict(file="flowpaths/abstractsourcesinkgraph.py", cls="AbstractSourceSinkGraph", func="_augment_with_source_sink",
+                          params=[SELFOBJ], defaults=[], ret=NONE,
+                          selfobj=dict(inputs=[("base_graph", BGRAPH), ("additional_starts", Set(NODE)), ("additional_ends", Set(NODE)),
+                                               ("source", NODE), ("sink", NODE)],
+                                       outputs=[("source_edges", List(EDGE)), ("sink_edges", List(EDGE)), ("source_sink_edges", Set(EDGE))],
+                                       graph=True))
+
+_EV = Dict(Tuple(NODE, NODE, INT), INT)
+TARGETS["solpaths"] = dict(file="flowpaths/abstractpathmodeldag.py", cls="AbstractPathModelDAG", func="get_solution_paths",
+                           params=[SELFOBJ], defaults=[], ret=Opt(List(List(NODE))),
+                           selfobj=dict(inputs=[("external_solution_paths", Opt(List(List(NODE)))), ("edge_vars_sol", _EV), ("G", SGRAPH), ("k", INT)],
+                                        outputs=[("edge_vars_sol", _EV)],          # read and (re)assigned: initialised from the input
+                                        # a call whose result is an input of the model: the rounded 0/1 values the solver wrapper returns
+                                        calls={"self.solver.get_values(self.edge_vars, binary_values=True)": ("solver_edge_values", _EV)}))
+
+# a query of stDiGraph on data networkx computed (condensation): the expressions below are inputs of the model
+TARGETS["is_scc_edge"] = dict(file="flowpaths/stdigraph.py", cls="stDiGraph", func="is_scc_edge", params=[SELFOBJ, NODE, NODE], defaults=[], ret=BOOL,
+                              selfobj=dict(inputs=[], outputs=[],
+                                           calls={"self.edges()": ("edges", Set(EDGE)),
+                                                  "self._condensation.graph['mapping']": ("scc_of", Dict(NODE, NODE))}))
+
 # name_prefix=f"<prefix>{name}" of self.add_variables -> variable family of Lin.v (the table the E1 harness uses as well)
 PREFIX_FAMILY = {"binary_": "fBit", "comp_": "fComp", "z_": "fZ"}
 
@@ -162,6 +186,8 @@ def gty(t):
     if t == NODE: return "N"
     if t == EDATA: return "(option Q)"
     if t == GRAPH: return "pygraph"
+    if t == BGRAPH: return "bgraph"
+    if t == SGRAPH: return "sgraph"
     if t in (VAR, HNAME): return "var"
     if t == LEXP: return "lexp"
     if t == CON: return "lcon"
@@ -182,6 +208,8 @@ def dflt(t):
     if t == NODE: return "0%N"
     if t == EDATA: return "None"
     if t == GRAPH: return "py_empty_graph"
+    if t == BGRAPH: return "(mk_bgraph [] [])"
+    if t == SGRAPH: return "(mk_sgraph 0%N 0%N [])"
     if t in (VAR, HNAME): return "(V 0%N [])"
     if t == LEXP: return "(LConst (0#1)%Q)"
     if t == BITS: return "0%Z"
@@ -201,6 +229,8 @@ def eqb(t, node=None):
     if t[0] == "Tuple" and len(t) == 3:
         if t == EDGE: return "edge_eqb"
         return "(py_pair_eqb %s %s)" % (eqb(t[1], node), eqb(t[2], node))
+    if t[0] == "Tuple" and len(t) == 4:        # (a, b, c) is ((a, b), c)
+        return "(py_pair_eqb (py_pair_eqb %s %s) %s)" % (eqb(t[1], node), eqb(t[2], node), eqb(t[3], node))
     raise Unsupported("equality / membership on values of type %s" % show(t), node)
 
 
@@ -228,7 +258,8 @@ NUMOPS = {  # per numeric type: add sub ltb leb eqb max min
     NUM: dict(mul="Qmult", add="Qplus", sub="Qminus", ltb="Qltb", leb="Qle_bool", eqb="Qeq_bool", max="Qmax_py", min="Qmin_py"),
     EXT: dict(ltb="xq_ltb", leb="xq_leb", eqb="xq_eqb", max="xq_max", min="xq_min"),
 }
-EXNS = ("ValueError", "KeyError", "TypeError", "RuntimeError", "IndexError")
+EXNS = {"ValueError": "ValueError", "KeyError": "KeyError", "TypeError": "TypeError", "RuntimeError": "RuntimeError",
+        "IndexError": "IndexError", "Exception": "PyException"}
 LOG_METHODS = ("debug", "info", "warning", "error", "critical", "exception", "log")
 
 
@@ -277,11 +308,32 @@ class Fn:
             raise Unsupported("signature: default values %s, the embedding declares %s" % ([ast.unparse(d) for d in a.defaults], self.spec["defaults"]), f)
         self.params = [x.arg for x in a.args]
         self.ptype = dict(zip(self.params, self.spec["params"]))
+        self.selfobj = self.spec.get("selfobj")
+        self.sparam = self.params[0] if self.selfobj else None
+        self.s_in = dict(self.selfobj["inputs"]) if self.selfobj else {}
+        self.s_out = dict(self.selfobj["outputs"]) if self.selfobj else {}
+        self.builds = bool(self.selfobj and self.selfobj.get("graph"))
+        self.s_calls = dict(self.selfobj.get("calls", {})) if self.selfobj else {}
+        self.uses_fuel = any(isinstance(n, ast.While) for n in ast.walk(self.fdef))
         self.emits = bool(self.spec.get("emits"))
         self.callees = []              # other translated targets this function calls (their Gen modules are required)
         if self.emits:
             check_primitives(self.classdef)
         self.collect_names()
+
+    @staticmethod
+    def append_call(e):
+        """(list name, argument node) if e is `<name>.append(<arg>)`, else None"""
+        if (isinstance(e, ast.Call) and isinstance(e.func, ast.Attribute) and e.func.attr == "append" and isinstance(e.func.value, ast.Name)
+                and len(e.args) == 1 and not e.keywords):
+            return e.func.value.id, e.args[0]
+        return None
+
+    def self_attr(self, e):
+        """attribute name if e is `self.<attr>` on a self-object parameter, else None"""
+        if self.sparam and isinstance(e, ast.Attribute) and isinstance(e.value, ast.Name) and e.value.id == self.sparam:
+            return e.attr
+        return None
 
     # -------------------------------------------------------------------------------- names
     def collect_names(self):
@@ -296,6 +348,8 @@ class Fn:
         self.assign_value = {}   # name -> value node of its (last seen) plain top-level assignment
         def walk(stmts, depth=0):
             for s in stmts:
+                if isinstance(s, ast.Assign) and len(s.targets) == 1 and self.self_attr(s.targets[0]) in self.s_out:
+                    continue          # assignment to an output attribute of self
                 if isinstance(s, ast.Assign):
                     if len(s.targets) != 1 or not isinstance(s.targets[0], ast.Name):
                         raise Unsupported("assignment target (only `name = expr`)", s)
@@ -308,6 +362,14 @@ class Fn:
                         raise Unsupported("augmented-assignment target", s)
                     if s.target.id not in self.locals: self.locals.append(s.target.id)
                     self.assign_count[s.target.id] = self.assign_count.get(s.target.id, 0) + 2
+                elif isinstance(s, ast.Expr) and self.append_call(s.value) is not None:
+                    n = self.append_call(s.value)[0]
+                    if n in self.params: raise Unsupported("append to a parameter (the caller's list would be mutated)", s)
+                    if n not in self.locals: self.locals.append(n)
+                    self.assign_count[n] = self.assign_count.get(n, 0) + 2
+                elif isinstance(s, ast.While):
+                    if s.orelse: raise Unsupported("while/else", s)
+                    walk(s.body, depth + 1)
                 elif isinstance(s, ast.For):
                     ns = targets_of_for(s.target)
                     if len(set(ns)) != len(ns): raise Unsupported("loop target repeats a name", s)
@@ -323,6 +385,7 @@ class Fn:
         for n in self.loopvars:
             if n in self.locals or n in self.params:
                 raise Unsupported("loop variable %r is also assigned / a parameter" % n, self.fdef)
+        self.appended = {self.append_call(n.value)[0] for n in ast.walk(self.fdef) if isinstance(n, ast.Expr) and self.append_call(n.value) is not None}
         self.state_params = [p for p in self.params if p in self.locals]
         for p in self.state_params:
             if self.ptype[p] in ERASED: raise Unsupported("assignment to the erased parameter %r" % p, self.fdef)
@@ -332,6 +395,10 @@ class Fn:
     # -------------------------------------------------------------------------------- expressions
     # expr returns (term, type, guards); guards = [(bool term that is true when the operation fails, exception)]
     def expr(self, e, env):
+        if self.s_calls and isinstance(e, (ast.Call, ast.Subscript, ast.Attribute)) and self.sparam not in env["bound"] \
+                and ast.unparse(e) in self.s_calls:
+            nm, ty = self.s_calls[ast.unparse(e)]          # a declared input expression of the object
+            return "in_" + nm, ty, []
         m = getattr(self, "e_" + type(e).__name__, None)
         if m is None:
             raise Unsupported("expression node %s" % type(e).__name__, e)
@@ -392,6 +459,9 @@ class Fn:
         L = self.expr(e.left, env); R = self.expr(e.right, env)
         if L[1] == STR and R[1] == STR and op == "add":
             return "tt", STR, L[2] + R[2]
+        if L[1][0] == "List" and R[1][0] == "List" and op == "add":
+            ty = join(L[1], R[1], e)
+            return "(app %s %s)" % (L[0], R[0]), ty, L[2] + R[2]
         lin = (VAR, LEXP)
         if L[1] in lin or R[1] in lin:      # arithmetic of solver expressions: mirrored, given meaning by PyLin.v
             if op == "mul":
@@ -445,6 +515,9 @@ class Fn:
         if isinstance(op, (ast.In, ast.NotIn)):
             t, g = self.member(L, R, e)
             return (t if isinstance(op, ast.In) else "(negb %s)" % t), BOOL, g
+        if isinstance(op, (ast.Eq, ast.NotEq)) and L[1][0] == "Dict" and isinstance(e.comparators[0], ast.Dict) and not e.comparators[0].keys:
+            t = "(py_is_empty %s)" % L[0]
+            return (t if isinstance(op, ast.Eq) else "(negb %s)" % t), BOOL, L[2]
         if isinstance(op, (ast.Eq, ast.NotEq)) and not (L[1] in NUMERIC and R[1] in NUMERIC):
             ty = join(L[1], R[1], e)
             t = "(%s %s %s)" % (eqb(ty, e), coerce(L[0], L[1], ty, e), coerce(R[0], R[1], ty, e))
@@ -460,6 +533,9 @@ class Fn:
     def member(self, L, R, node):
         (lt, lty, lg), (rt, rty, rg) = L, R
         g = lg + rg
+        if rty == SELFOBJ and self.builds:
+            if lty != NODE: raise Unsupported("membership of a value of type %s in the graph" % show(lty), node)
+            return "(py_m_has_node (o_graph s) %s)" % lt, g
         if rty == EDATA:
             if lty != ATTR: raise Unsupported("membership of a non-attribute key in an edge-data dict", node)
             return "(py_is_some %s)" % rt, g
@@ -483,6 +559,15 @@ class Fn:
 
     def e_Subscript(self, e, env):
         b, bty, bg = self.expr(e.value, env)
+        if isinstance(e.slice, ast.Slice):
+            if bty[0] != "List" or e.slice.step is not None: raise Unsupported("slice of a value of type %s / with a step" % show(bty), e)
+            bs = []; g = list(bg)
+            for x in (e.slice.lower, e.slice.upper):
+                if x is None: bs.append("None"); continue
+                t, ty, gg = self.expr(x, env); g += gg
+                if ty != INT: raise Unsupported("slice bound of type %s" % show(ty), e)
+                bs.append("(Some %s)" % t)
+            return "(py_slice %s %s %s)" % (b, bs[0], bs[1]), bty, g
         if bty[0] == "Tuple" and isinstance(e.slice, ast.Constant) and isinstance(e.slice.value, int) and not isinstance(e.slice.value, bool):
             k = e.slice.value; n = len(bty) - 1
             if not (0 <= k < n) or n not in (2, 3): raise Unsupported("tuple index", e)
@@ -511,7 +596,39 @@ class Fn:
         raise Unsupported("subscript on a value of type %s" % show(bty), e)
 
     def e_Attribute(self, e, env):
+        a = self.self_attr(e)
+        if a is not None and self.sparam not in env["bound"]:
+            if a in self.s_out:
+                if "self." + a not in env["defined"]: raise Unsupported("read of self.%s where it may be unassigned" % a, e)
+                return "(at_%s s)" % a, self.s_out[a], []
+            if a in self.s_in: return "in_" + a, self.s_in[a], []
+            raise Unsupported("attribute self.%s (not in the typed embedding of the object)" % a, e)
+        if self.selfobj:
+            t, ty, g = self.expr(e.value, env)
+            if ty == SGRAPH and e.attr in ("source", "sink"): return "(sg_%s %s)" % (e.attr, t), NODE, g
+            if ty == BGRAPH and e.attr == "nodes": return "(b_nodes %s)" % t, List(NODE), g       # iterating G.nodes
+            if ty == BGRAPH and e.attr == "edges": return "(b_edges %s)" % t, List(EDGE), g
         raise Unsupported("attribute access outside a supported method call", e)
+
+    def e_List(self, e, env):
+        if any(isinstance(x, ast.Starred) for x in e.elts): raise Unsupported("starred element in a list literal", e)
+        parts = [self.expr(x, env) for x in e.elts]
+        ty = BOT
+        for p in parts: ty = join(ty, p[1], e)
+        if parts and ty not in (NODE, INT, NUM, EDGE): raise Unsupported("list literal of elements of type %s" % show(ty), e)   # no lists of (aliasable) lists
+        return "[" + "; ".join(coerce(p[0], p[1], ty, e) for p in parts) + "]", List(ty), sum((p[2] for p in parts), [])
+
+    def e_Dict(self, e, env):
+        if e.keys: raise Unsupported("dict literal with entries", e)
+        return "[]", Dict(BOT, BOT), []
+
+    def e_IfExp(self, e, env):
+        t, ty, g = self.expr(e.test, env)
+        if ty != BOOL: raise Unsupported("condition of type %s" % show(ty), e.test)
+        a, aty, ag = self.expr(e.body, env); b, bty, bg = self.expr(e.orelse, env)
+        if ag or bg: raise Unsupported("partial operation evaluated conditionally (branch of a conditional expression)", e)
+        rty = join(aty, bty, e)
+        return "(if %s then %s else %s)" % (t, coerce(a, aty, rty, e), coerce(b, bty, rty, e)), rty, g
 
     def is_pairs_idiom(self, e, env):
         """[(p[i], p[i+1]) for i in range(len(p) - 1)] with p a name of list type; returns (term, elem type, guards) or None"""
@@ -603,6 +720,11 @@ class Fn:
                     return "NegInf", EXT, []
                 raise Unsupported("float(...) other than float(\"-inf\")", e)
             if e.keywords: raise Unsupported("keyword arguments of %s" % n, e)
+            if n == "str":
+                if len(e.args) != 1: raise Unsupported("str arity", e)
+                t, ty, g = self.expr(e.args[0], env)
+                if ty != NODE: raise Unsupported("str() of a value of type %s (node names are strings already)" % show(ty), e)
+                return t, NODE, g
             if n == "range":
                 if len(e.args) != 1: raise Unsupported("range with %d arguments (only range(n))" % len(e.args), e)
                 t, ty, g = self.expr(e.args[0], env)
@@ -651,6 +773,27 @@ class Fn:
             if None in kw: raise Unsupported("**kwargs in a call", e)
             def data_true():
                 return set(kw) == {"data"} and isinstance(kw["data"], ast.Constant) and kw["data"].value is True
+            if rty == SGRAPH:
+                if m == "successors" and len(e.args) == 1 and not kw:
+                    v, vty, vg = self.expr(e.args[0], env)
+                    if vty != NODE: raise Unsupported("successors of a non-node", e)
+                    return "(py_successors %s %s)" % (recv, v), List(NODE), rg + vg
+                raise Unsupported("graph method call .%s with these arguments" % m, e)
+            if rty == BGRAPH:
+                if m in ("nodes", "edges") and not e.args and (not kw or data_true()):
+                    if kw: return "(b_%s %s)" % (m, recv), (NODEDATA if m == "nodes" else EDGEDATA), rg     # only as argument of add_*_from
+                    return "(b_%s %s)" % (m, recv), List(NODE if m == "nodes" else EDGE), rg
+                if m in ("in_degree", "out_degree") and len(e.args) == 1 and not kw:
+                    v, vty, vg = self.expr(e.args[0], env)
+                    if vty != NODE: raise Unsupported("%s of a non-node" % m, e)
+                    return "(py_b_%s %s %s)" % (m, recv, v), INT, rg + vg
+                raise Unsupported("graph method call .%s with these arguments" % m, e)
+            if rty == SELFOBJ and self.builds:
+                if m in ("out_edges", "in_edges") and len(e.args) == 1 and not kw:
+                    v, vty, vg = self.expr(e.args[0], env)
+                    if vty != NODE: raise Unsupported("%s of a non-node" % m, e)
+                    return "(py_m_%s (o_graph s) %s)" % (m, v), List(EDGE), rg + vg
+                raise Unsupported("call of self.%s in an expression" % m, e)
             if rty == WRAP:
                 if m == "quicksum" and self.emits and len(e.args) == 1 and not kw:
                     t, ty, g = self.expr(e.args[0], env)
@@ -804,24 +947,122 @@ class Fn:
         if callee not in self.callees: self.callees.append(callee)
         return self.guarded(g, "py_emit_call (fun s => Gen_%s.fn %s) emit_out" % (callee, " ".join(args)))
 
+    # -------------------------------------------------------------------------------- in-place list growth
+    def alias_uses(self, node):
+        """names of appended-to lists that `node` uses as a VALUE (so that another reference to the same list object may exist
+        afterwards); len(L), L[i], L[a:b], x in L, L + M, f-strings and the receiver of L.append do not alias"""
+        out = set()
+        def walk(n, direct_ok=True):
+            if isinstance(n, ast.Name):
+                if n.id in self.appended: out.add(n.id)
+                return
+            if isinstance(n, ast.JoinedStr): return
+            if isinstance(n, ast.Subscript):
+                if not isinstance(n.value, ast.Name): walk(n.value)
+                walk(n.slice); return
+            if isinstance(n, ast.Call):
+                if isinstance(n.func, ast.Name) and n.func.id == "len" and len(n.args) == 1 and isinstance(n.args[0], ast.Name): return
+                if self.append_call(n) is not None:
+                    walk(n.args[0]); return
+            if isinstance(n, ast.Compare) and len(n.ops) == 1 and isinstance(n.ops[0], (ast.In, ast.NotIn)):
+                walk(n.left)
+                if not isinstance(n.comparators[0], ast.Name): walk(n.comparators[0])
+                return
+            if isinstance(n, ast.BinOp) and isinstance(n.op, ast.Add):
+                for c in (n.left, n.right):
+                    if not isinstance(c, ast.Name): walk(c)
+                return
+            for c in ast.iter_child_nodes(n): walk(c)
+        walk(node)
+        return out
+
+    def alias_scan(self, stmts):
+        out = set()
+        for st in stmts:
+            for n in ast.walk(st):
+                if isinstance(n, ast.Assign): out |= self.alias_uses(n.value)
+                elif isinstance(n, ast.Expr): out |= self.alias_uses(n.value)
+        return out
+
+    @staticmethod
+    def own_breaks(stmts):
+        """does this loop body contain a `break` of its own (not of a nested loop)?"""
+        for st in stmts:
+            if isinstance(st, ast.Break): return True
+            if isinstance(st, ast.If) and (Fn.own_breaks(st.body) or Fn.own_breaks(st.orelse)): return True
+        return False
+
+    def graph_call_stmt(self, e, env):
+        """self.add_edge(u, v) / self.add_nodes_from(X) / self.add_edges_from(X) on the graph the method fills"""
+        if not (isinstance(e, ast.Call) and self.self_attr(e.func) is not None and self.sparam not in env["bound"]): return None
+        m = e.func.attr
+        if m not in ("add_edge", "add_node", "add_nodes_from", "add_edges_from"): return None
+        if e.keywords: raise Unsupported("keyword arguments (edge / node attributes) of self.%s" % m, e)
+        args = [self.expr(a, env) for a in e.args]; g = sum((a[2] for a in args), [])
+        tys = [a[1] for a in args]
+        if m == "add_edge" and tys == [NODE, NODE]: upd = "py_m_add_edge (o_graph s) %s %s" % (args[0][0], args[1][0])
+        elif m == "add_node" and tys == [NODE]: upd = "py_m_add_node (o_graph s) %s" % args[0][0]
+        elif m == "add_nodes_from" and len(tys) == 1 and tys[0] in (NODEDATA, List(NODE)): upd = "py_m_add_nodes_from (o_graph s) %s" % args[0][0]
+        elif m == "add_edges_from" and len(tys) == 1 and tys[0] in (EDGEDATA, List(EDGE)): upd = "py_m_add_edges_from (o_graph s) %s" % args[0][0]
+        else: raise Unsupported("self.%s with arguments of type %s" % (m, ", ".join(show(t) for t in tys)), e)
+        return self.guarded(g, "py_assign (fun s => set_o_graph (%s) s)" % upd)
+
     def stmt(self, s, env):
         """returns (gallina stmt term, falls_through: bool)"""
+        if isinstance(s, ast.Expr) and self.append_call(s.value) is not None:
+            n, arg = self.append_call(s.value)
+            if n not in env["defined"]: raise Unsupported("append to %r where it may be unassigned" % n, s)
+            if n in env["aliased"]:
+                raise Unsupported("append to the list %r while another reference to the same list object may exist (aliasing is not modelled)" % n, s)
+            if env["iterating"] & {n}: raise Unsupported("append to the list %r while iterating over it" % n, s)
+            t, ty, g = self.expr(arg, env)
+            env["aliased"] |= self.alias_uses(arg)
+            lt = env["vt"][n]
+            if lt[0] != "List": raise Unsupported("append to a value of type %s" % show(lt), s)
+            ety = join(lt[1], ty, s)
+            final = env["final"].get(n, List(ety))
+            a = self.assign_to(n, "(app (%s s) [%s])" % (self.xname[n], coerce(t, ty, final[1], s)), List(ety), env, s)
+            return self.guarded(g, a), True
         if isinstance(s, ast.Expr):
             if isinstance(s.value, ast.Constant) and isinstance(s.value.value, str): return None, True   # docstring / string statement
             if self.emits and self.self_call(s.value, env) is not None:
                 return self.emit_call_stmt(s.value, env), True
+            if self.builds and self.graph_call_stmt(s.value, env) is not None:
+                return self.graph_call_stmt(s.value, env), True
             if is_logging_call(s.value):
                 g = self.dropped_guards(s.value, env)
                 return (self.guarded(g, "py_skip") if g else None), True
             raise Unsupported("expression statement", s)
         if isinstance(s, ast.Pass): return None, True
+        if isinstance(s, ast.Break):
+            if not env["inloop"]: raise Unsupported("break outside a loop", s)
+            return "py_raise BreakSignal", False
+        if isinstance(s, ast.While):
+            t, ty, g = self.expr(s.test, env)
+            if ty != BOOL: raise Unsupported("condition of type %s" % show(ty), s.test)
+            if g: raise Unsupported("partial operation in a while condition", s.test)
+            d0 = env["defined"]; inloop0 = env["inloop"]
+            env["inloop"] = True; env["aliased"] |= self.alias_scan(s.body)
+            b, _ = self.block(s.body, env)
+            env["defined"] = d0; env["inloop"] = inloop0
+            return "py_while fuel (fun s => %s)\n%s" % (t, self.ind(b)), True
+        if isinstance(s, ast.Assign) and len(s.targets) == 1 and self.self_attr(s.targets[0]) in self.s_out:
+            a = self.self_attr(s.targets[0]); want = self.s_out[a]
+            t, ty, g = self.expr(s.value, env)
+            if join(ty, want, s) != want: raise Unsupported("self.%s assigned a value of type %s, the embedding declares %s" % (a, show(ty), show(want)), s)
+            env["defined"] = env["defined"] | {"self." + a}
+            return self.guarded(g, "py_assign (fun s => set_at_%s %s s)" % (a, coerce(t, ty, want, s))), True
         if isinstance(s, ast.Assign) and self.emits and self.self_call(s.value, env) == "add_variables":
             cols, fam, nm, key, g = self.add_variables_call(s.value, env)
             a = self.assign_to(s.targets[0].id, "(%s, %s)" % (fam, nm), VarDict(fam, key), env, s)
             return self.guarded(g, "py_seq\n%s\n%s" % (self.ind("py_assign (fun s => emit_out %s [] s)" % cols), self.ind(a))), True
         if isinstance(s, ast.Assign):
             t, ty, g = self.expr(s.value, env)
-            return self.guarded(g, self.assign_to(s.targets[0].id, t, ty, env, s)), True
+            n = s.targets[0].id
+            uses = self.alias_uses(s.value)
+            env["aliased"] = (env["aliased"] | uses) - ({n} if not (isinstance(s.value, ast.Name) and s.value.id in self.appended) else set())
+            if isinstance(s.value, ast.Name) and s.value.id in self.appended and n in self.appended: env["aliased"] |= {n}
+            return self.guarded(g, self.assign_to(n, t, ty, env, s)), True
         if isinstance(s, ast.AugAssign):
             op = {ast.Add: ast.Add, ast.Sub: ast.Sub}.get(type(s.op))
             if op is None: raise Unsupported("augmented operator %s" % type(s.op).__name__, s)
@@ -842,14 +1083,15 @@ class Fn:
             if s.cause is not None or ex is None: raise Unsupported("raise form", s)
             name = ex.func.id if isinstance(ex, ast.Call) and isinstance(ex.func, ast.Name) else (ex.id if isinstance(ex, ast.Name) else None)
             if name not in EXNS: raise Unsupported("raise of %s (only %s)" % (name, "/".join(EXNS)), s)
-            return self.guarded(self.dropped_guards(ex, env), "py_raise %s" % name), False      # the message text is dropped
+            return self.guarded(self.dropped_guards(ex, env), "py_raise %s" % EXNS[name]), False      # the message text is dropped
         if isinstance(s, ast.If):
             t, ty, g = self.expr(s.test, env)
             if ty != BOOL: raise Unsupported("condition of type %s (truthiness of non-booleans is not translated)" % show(ty), s.test)
-            d0 = env["defined"]
-            a, fa = self.block(s.body, env); da = env["defined"]
-            env["defined"] = d0
+            d0 = env["defined"]; al0 = set(env["aliased"])
+            a, fa = self.block(s.body, env); da = env["defined"]; ala = env["aliased"]
+            env["defined"] = d0; env["aliased"] = set(al0)
             b, fb = self.block(s.orelse, env); db = env["defined"]
+            env["aliased"] = env["aliased"] | ala
             env["defined"] = (da & db) if (fa and fb) else (da if fa else (db if fb else da | db))
             return self.guarded(g, "py_if (fun s => %s)\n%s\n%s" % (t, self.ind(a), self.ind(b))), fa or fb
         if isinstance(s, ast.For):
@@ -865,12 +1107,15 @@ class Fn:
                 tys = list(el[1:]); pat = "'(" + ", ".join(inames) + ")"
             for n in names:
                 if n in env["bound"]: raise Unsupported("loop variable %r rebound by a nested loop" % n, s)
-            d0 = env["defined"]; bound0 = dict(env["bound"]); inloop0 = env["inloop"]
+            d0 = env["defined"]; bound0 = dict(env["bound"]); inloop0 = env["inloop"]; it0 = set(env["iterating"])
             key = self.src_key(s.iter) if len(names) == 1 else None
             env["bound"].update({n: (i, t, key) for n, i, t in zip(names, inames, tys)}); env["inloop"] = True
+            env["aliased"] |= self.alias_scan(s.body)
+            if isinstance(s.iter, ast.Name): env["iterating"] |= {s.iter.id}
             b, _ = self.block(s.body, env)
-            env["defined"] = d0; env["bound"] = bound0; env["inloop"] = inloop0
-            return self.guarded(g, "py_for (fun s => %s) (fun %s =>\n%s)" % (t, pat, self.ind(b))), True
+            env["defined"] = d0; env["bound"] = bound0; env["inloop"] = inloop0; env["iterating"] = it0
+            loop = "py_for_b" if self.own_breaks(s.body) else "py_for"
+            return self.guarded(g, "%s (fun s => %s) (fun %s =>\n%s)" % (loop, t, pat, self.ind(b))), True
         raise Unsupported("statement node %s" % type(s).__name__, s)
 
     def ind(self, txt):
@@ -894,7 +1139,7 @@ class Fn:
         ret = BOT
         final = {}; final_ret = None
         for rnd in range(8):
-            env = dict(vt=dict(vt), defined=set(self.state_params), bound={}, inloop=False, ret=[ret], final=final, final_ret=final_ret, ncomp=[0])
+            env = dict(vt=dict(vt), defined=set(self.state_params) | {"self." + a for a in self.s_out if a in self.s_in}, bound={}, inloop=False, ret=[ret], final=final, final_ret=final_ret, ncomp=[0], aliased=set(), iterating=set())
             body, falls = self.block(self.fdef.body, env)
             if env["vt"] == vt and env["ret"][0] == ret:
                 break
@@ -904,7 +1149,7 @@ class Fn:
         for n in self.locals:
             if n not in vt or has_bot(vt[n]):
                 raise Unsupported("type of local %r could not be determined (%s)" % (n, show(vt.get(n, BOT))), self.fdef)
-        if ret == BOT and self.emits: ret = NONE        # an emitter falls off its end (returns None)
+        if ret == BOT and (self.emits or self.selfobj): ret = NONE        # an emitter falls off its end (returns None)
         if ret == BOT: raise Unsupported("function has no return statement", self.fdef)
         if ret != self.spec["ret"]:
             raise Unsupported("return type %s, the typed embedding declares %s" % (show(ret), show(self.spec["ret"])), self.fdef)
@@ -913,7 +1158,7 @@ class Fn:
         order = sorted(self.locals, key=lambda n: (gty(vt[n]), self.locals.index(n)))
         self.xname = {n: "x%d" % i for i, n in enumerate(order)}
         self.locals_in_field_order = order
-        env = dict(vt=dict(vt), defined=set(self.state_params), bound={}, inloop=False, ret=[ret], final=vt, final_ret=ret, ncomp=[0])
+        env = dict(vt=dict(vt), defined=set(self.state_params) | {"self." + a for a in self.s_out if a in self.s_in}, bound={}, inloop=False, ret=[ret], final=vt, final_ret=ret, ncomp=[0], aliased=set(), iterating=set())
         self.callees = []
         body, falls = self.block(self.fdef.body, env)
         if env["vt"] != vt: raise Unsupported("type inference unstable in the emission pass", self.fdef)
@@ -939,6 +1184,8 @@ class Fn:
         fields = [(self.xname[n], gty(vt[n])) for n in order]
         if self.emits:       # the columns and rows handed to the solver so far, in order
             fields += [("o_cols", "(list col)"), ("o_rows", "(list row)")]
+        if self.builds: fields += [("o_graph", "mgraph")]
+        for a, ty in (self.selfobj["outputs"] if self.selfobj else []): fields += [("at_" + a, gty(ty))]
         fields = fields or [("x_unit", "unit")]
         rty = "unit" if ret == NONE else gty(ret)
         L.append("Record st := mk_st { " + "; ".join("%s : %s" % f for f in fields) + " }.")
@@ -948,12 +1195,17 @@ class Fn:
         if self.emits:
             L.append("Definition emit_out (cs : list col) (rs : list row) (s : st) : st := set_o_rows (o_rows s ++ rs) (set_o_cols (o_cols s ++ cs) s).")
         gparams = [(self.aname[p], gty(self.ptype[p])) for p in self.params if self.ptype[p] not in ERASED]
+        gparams += [("in_" + a, gty(ty)) for a, ty in (self.selfobj["inputs"] if self.selfobj else [])]
+        gparams += [("in_" + nm, gty(ty)) for nm, ty in self.s_calls.values()]
+        if self.uses_fuel: gparams = [("fuel", "nat")] + gparams
         binder = " ".join("(%s : %s)" % gp for gp in gparams)
         names = " ".join(gp[0] for gp in gparams)
         init = []
         for n in order:
             init.append(self.aname[n] if n in self.state_params else dflt(vt[n]))
         if self.emits: init += ["[]", "[]"]
+        if self.builds: init += ["py_m_empty"]
+        for a, ty in (self.selfobj["outputs"] if self.selfobj else []): init += ["in_" + a if a in self.s_in else dflt(ty)]
         if not init: init = ["tt"]
         L.append("Definition init_st %s : st := mk_st %s." % (binder, " ".join(init)))
         L.append("")
@@ -963,6 +1215,10 @@ class Fn:
         if self.emits:
             L.append("Definition fn %s : result %s * list col * list row :=" % (binder, rty))
             L.append("  let r := body %s (init_st %s) in (py_outcome (fst r), o_cols (snd r), o_rows (snd r))." % (names, names))
+        elif self.selfobj:     # the outcome, the graph the method filled, and the attributes it assigned
+            outs = (["o_graph"] if self.builds else []) + ["at_" + a for a, _ in self.selfobj["outputs"]]
+            L.append("Definition fn %s :=" % binder)
+            L.append("  let r := body %s (init_st %s) in (%s)." % (names, names, ", ".join(["py_outcome (fst r)"] + ["%s (snd r)" % o for o in outs])))
         else:
             L.append("Definition fn %s : result %s := py_run (body %s) (init_st %s)." % (binder, rty, names, names))
         L.append("")
@@ -974,16 +1230,24 @@ def translate(target, repo=None):
     return Fn(target, repo).translate()
 
 
+# the self test translates its bodies as a function returning an int, so that a body is rejected for its construct, not its type
+TARGETS["_selftest"] = dict(file="flowpaths/utils/graphutils.py", cls=None, func="max_occurrence",
+                            params=[List(EDGE), List(List(NODE)), Dict(EDGE, NUM)], defaults=["{}"], ret=INT)
 # bodies that MUST be rejected (fail-closed self test; each replaces the body of max_occurrence(seq, paths_in_DAG, edge_lengths={}))
 REJECT = {
-    "while": "i = 0\nwhile i < 3:\n    i += 1\nreturn i",
-    "break": "r = 0\nfor p in paths_in_DAG:\n    break\nreturn r",
+    "while/else": "i = 0\nwhile i < 3:\n    i += 1\nelse:\n    i = 0\nreturn i",
+    "while with a partial condition": "i = 0\nwhile edge_lengths[(0, 0)] > 0:\n    i += 1\nreturn i",
+    "append to an aliased list": "a = []\nb = []\nfor p in paths_in_DAG:\n    b.append(a)\n    a.append(0)\nreturn 0",
+    "append through a second name": "a = []\nb = a\nb.append(0)\na.append(1)\nreturn len(a)",
+    "append while iterating": "a = [0]\nfor x in a:\n    a.append(x)\nreturn 0",
+    "append to a parameter": "seq.append((0, 0))\nreturn 0",
+    "other list method": "a = [0]\na.pop()\nreturn 0",
     "try": "try:\n    r = 0\nexcept Exception:\n    r = 1\nreturn r",
     "bare return": "return",
     "chained assignment": "a = b = 0\nreturn a",
     "tuple assignment": "a, b = 0, 1\nreturn a",
     "dict of lists index": "r = 0\nfor p in paths_in_DAG:\n    r = paths_in_DAG[0][0]\nreturn 0",
-    "slice": "r = seq[1:]\nreturn 0",
+    "slice with a step": "r = seq[::2]\nreturn 0",
     "sum()": "return sum(edge_lengths.get(e, 1) for e in seq)",
     "any()": "r = 0\nif any(e in seq for e in seq):\n    r = 1\nreturn r",
     "comprehension with two generators": "s = [e for e in seq for f in seq]\nreturn 0",
@@ -1000,7 +1264,7 @@ REJECT = {
     "float constant": "r = 0.5\nreturn r",
     "float(inf)": "r = float(\"inf\")\nreturn 0",
     "truthiness": "r = 0\nif seq:\n    r = 1\nreturn r",
-    "ternary": "r = 1 if len(seq) > 0 else 0\nreturn r",
+    "partial operation in a conditional expression": "r = edge_lengths[(0, 0)] if len(seq) > 0 else 0\nreturn 0",
     "chained comparison": "r = 0\nif 0 < len(seq) < 3:\n    r = 1\nreturn r",
     "unknown call": "r = abs(0)\nreturn r",
     "method call": "seq.append((0, 0))\nreturn 0",
@@ -1115,7 +1379,7 @@ def selftest():
             src = "def max_occurrence(seq, paths_in_DAG, edge_lengths: dict = {}) -> int:\n" + "\n".join("    " + l for l in body.splitlines()) + "\n"
             open(os.path.join(d, "flowpaths", "utils", "graphutils.py"), "w").write(src)
             try:
-                translate("max_occurrence", d); bad.append(k)
+                translate("_selftest", d); bad.append(k)
             except Unsupported:
                 pass
     finally:
